@@ -198,6 +198,8 @@ fn main() {
                 b["mode"] = json!(sc["client"]["mode"].as_str().unwrap_or("pipelined"));
             }
             r.emit(b);
+            // the begin event must be on disk before the library runs (the process may abort)
+            r.flush();
         }
         match kind {
             "conn" => run_conn(&sc, &rec),
